@@ -633,11 +633,12 @@ pub mod tree {
             }
             let iter = if backward { tree.into_iter_backward() } else { tree.iter_forward() }.map_err(|e| e.to_string())?;
             let mut out = Vec::new();
-            let mut cells = self.reader();
             for pos in iter {
                 let pos = pos.map_err(|e| e.to_string())?;
                 let schema = &self.schema;
-                let row = cells
+                // a reader of its own per row: nothing stays latched behind the iterator
+                let row = self
+                    .reader()
                     .with_cell_at(pos, |bytes| Row::from_bytes_checked(bytes, schema))
                     .map_err(|e| e.to_string())?
                     .map_err(|e| e.to_string())?;
@@ -651,8 +652,8 @@ pub mod tree {
             let total = self.pager.read().header_unchecked().total_pages;
             let mut info = walk_tree(&self.pager, 0, "tree", self.root, total, &self.schema);
             let nk = self.schema.num_keys();
-            let mut tree = self.reader();
             for page in info.pages.iter_mut() {
+                let mut tree = self.reader();
                 for slot in 0..page.slots {
                     let schema = &self.schema;
                     let keys = tree.with_cell_at(Position::new(page.id, slot), |bytes| Row::from_bytes_checked(bytes, schema));
